@@ -37,7 +37,13 @@ unsafe fn string_size(mut ptr: *const c_char) -> usize {
 
 impl From<&[u8]> for ReprCString {
     fn from(from: &[u8]) -> Self {
-        let b = Box::new(from.to_vec().into_boxed_slice());
+        let b = from
+            .iter()
+            .copied()
+            .take_while(|&b| b != 0)
+            .chain(Some(0))
+            .collect::<Vec<_>>()
+            .into_boxed_slice();
         Self(NonNull::new(Box::leak(b).as_mut_ptr() as *mut _).unwrap())
     }
 }
